@@ -201,9 +201,13 @@ func evalC07(c *core.Ctx, e *eco.Eco, op string, args []string) []core.Violation
 		if !sameMultiset(out, args) {
 			return mk("multiset", fmt.Sprintf("%q", out), fmt.Sprintf("a permutation of %q", args))
 		}
+		inh := ""
+		if inheritedNonTransitive(e, uniq(args)) {
+			inh = ":inherited-from-reference"
+		}
 		cs, ok := classSeq(e, out)
 		if !ok {
-			return mk("not-sorted", fmt.Sprintf("%q", out), "non-decreasing")
+			return mk("not-sorted"+inh, fmt.Sprintf("%q", out), "non-decreasing")
 		}
 		// reference class sequence: from the canonical (string-sorted) input order
 		canon := append([]string{}, args...)
@@ -211,7 +215,7 @@ func evalC07(c *core.Ctx, e *eco.Eco, op string, args []string) []core.Violation
 		ro, _, _ := sortInProcess(e, canon)
 		rcs, ok2 := classSeq(e, ro)
 		if ok2 && fmt.Sprint(cs) != fmt.Sprint(rcs) {
-			return mk("class-sequence-depends-on-input-order", fmt.Sprint(cs), fmt.Sprint(rcs))
+			return mk("class-sequence-depends-on-input-order"+inh, fmt.Sprint(cs), fmt.Sprint(rcs))
 		}
 	case "cli-sort-invalid":
 		if len(args) < 2 {
